@@ -55,15 +55,6 @@ func c23Configs() []*Config {
 	return cfgs
 }
 
-func TestDebugBytewise(t *testing.T) {
-	cfgs := c23Configs()
-	for _, c := range cfgs {
-		if c.Name == "W2-one-stream-bytewise-delivery" {
-			runProperty(t, "C23", []*Config{c}, nil, "debug", nil)
-		}
-	}
-}
-
 func TestC23(t *testing.T) {
 	runProperty(t, "C23", c23Configs(), nil,
 		"breadth-first exploration with state deduplication of ALL harness event sequences up to the configured depth over two real multiplexers on a harness-owned carrier inside a synctest bubble; events: open, accept, write(n) n in {0,1,W+1}, read(k) k in {0,1,W+1}, closeWrite, close (both sides), deliver next chunk A>B / B>A (thorough also: next byte, window 3, two streams); one case = one executed history; judged on every Read/Write result and at every quiescent state: byte k read on a stream = byte k the peer wrote on it (values encode stream, direction, offset), nothing read beyond what Write calls reported, io.EOF only after the peer's CloseWrite/Close and with all reported bytes read, reported bytes with nothing in flight are readable; non-trivial = at least one byte was read end to end; distinct by final state key",
